@@ -120,3 +120,60 @@ Lemma keeps_reap : forall st, keeps (set_reap st). Proof. intros st w. repeat sp
 Lemma keeps_steal : keeps set_steal. Proof. intro w. repeat split. Qed.
 Lemma keeps_deliver : forall st r, keeps (set_deliver st r). Proof. intros st r w. repeat split. Qed.
 #[local] Hint Resolve keeps_reap keeps_steal keeps_deliver : core.
+
+(* ---------- the invariant ---------- *)
+Definition frame_list (w : wrec) : list Z := match w_frame w with Some l => l | None => [] end.
+
+Definition ok_hist (dead : bool) (h : list Z) : Prop :=
+  if dead then exists h' st, h = h' ++ [st] /\ is_dead st = true /\ Forall (fun x => is_dead x = false) h'
+  else Forall (fun x => is_dead x = false) h.
+
+Record Inv (s : state) : Prop := {
+  i_nodup : NoDup (map w_id (ints s));
+  i_x1 : forall a b, In a (ints s) -> In b (ints s) -> w_dead a = false -> w_dead b = false ->
+           w_pid a = w_pid b -> w_id a = w_id b;
+  i_dead : forall w, In w (ints s) -> w_dead w = mem (w_pid w) (reaped s);
+  i_route : forall w, In w (ints s) -> w_hist w = w_deliv w ++ frame_list w ++ w_queue w;
+  i_hist : forall w, In w (ints s) -> ok_hist (w_dead w) (w_hist w);
+  i_spawn : forall t id pid, spawning s = Some (t, id, pid) ->
+     wlock s = Some t /\ find id (ints s) = None /\ find_pid pid (ints s) = None /\ mem pid (reaped s) = false
+}.
+
+Lemma init_inv : Inv init.
+Proof. constructor; simpl; [constructor|intros; contradiction|intros; contradiction|intros; contradiction|intros; contradiction|intros; discriminate]. Qed.
+
+Lemma holds_lock : forall s t, holds s t = true -> wlock s = Some t.
+Proof. unfold holds. intros s t. destruct (wlock s); [|discriminate]. intro H. zb. subst. reflexivity. Qed.
+
+Lemma find_pid_sub : forall pid (l l' : list wrec), (forall w, In w l' -> In w l) -> find_pid pid l = None -> find_pid pid l' = None.
+Proof.
+  unfold find_pid. intros pid l l' Hsub H. destruct (List.find _ l') as [w|] eqn:E; [|reflexivity].
+  apply find_some in E. destruct E as [E1 E2]. pose proof (find_none _ _ H w (Hsub w E1)) as E3. simpl in E3.
+  rewrite E3 in E2. discriminate.
+Qed.
+
+Lemma find_pid_upd_none : forall pid id f l, (forall w, w_pid (f w) = w_pid w /\ w_dead (f w) = w_dead w) ->
+  find_pid pid l = None -> find_pid pid (upd_rec id f l) = None.
+Proof.
+  unfold find_pid, upd_rec. intros pid id f l Hf. induction l as [|x t IH]; simpl; intro H; [reflexivity|].
+  destruct ((w_pid x =? pid) && negb (w_dead x)) eqn:E; [discriminate|].
+  assert (E' : (w_pid (if w_id x =? id then f x else x) =? pid) && negb (w_dead (if w_id x =? id then f x else x)) = false).
+  { destruct (w_id x =? id); [|exact E]. destruct (Hf x) as [-> ->]. exact E. }
+  rewrite E'. apply IH. exact H.
+Qed.
+
+Lemma inv_add : forall s t id pid, Inv s -> find id (ints s) = None -> find_pid pid (ints s) = None ->
+  mem pid (reaped s) = false -> forall lk sp, (forall a b c, sp = Some (a, b, c) -> False) ->
+  Inv {| ints := new_rec t id pid :: ints s; wlock := lk; reaped := reaped s; spawning := sp |}.
+Proof.
+  intros s t id pid [H1 H2 H3 H4 H5 H6] Hf Hp Hm lk sp Hsp. constructor; simpl.
+  - constructor; [|exact H1]. intro Hin. apply in_map_iff in Hin. destruct Hin as [w [E Hw]].
+    apply (find_none_in _ _ _ Hf Hw). exact E.
+  - intros a b [<-|Ha] [<-|Hb] Da Db E; simpl in *; auto.
+    + exfalso. apply (find_pid_none _ _ _ Hp Hb Db). symmetry. exact E.
+    + exfalso. apply (find_pid_none _ _ _ Hp Ha Da). exact E.
+  - intros w [<-|Hw]; simpl; [symmetry; exact Hm|apply H3; exact Hw].
+  - intros w [<-|Hw]; simpl; [reflexivity|apply H4; exact Hw].
+  - intros w [<-|Hw]; simpl; [constructor|apply H5; exact Hw].
+  - intros a b c E. exfalso. eapply Hsp. exact E.
+Qed.
